@@ -82,6 +82,8 @@ def sessions_of(seed, population='core'):
     kw = {}
     if population == 'core':
         lines, types = gen.core_score(r)
+    elif population == 'late_signatures':
+        lines, types = gen.late_signature_score(r)
     elif population == 'explored':
         g = gen.DocGen(r, kern_only=True, chords='core', max_rows=20, mid_sigs=True, max_spines=3, mid_comments=False, hidden_bars=False)
         lines, types = g.document()
@@ -99,6 +101,9 @@ def sessions_of(seed, population='core'):
     M = len(starts)
     tracker = {id(e): paths for e, paths in gen.path_tracker(lines)}
     doc_classes = gen.range_classes(lines) | gen.doc_classes(lines)
+    if population == 'late_signatures':
+        # the FIRST signatures of every spine (the same kinds in all of them) stand after a later barline: no signature changes, strict
+        doc_classes.discard('midscore_sig')
     if population == 'nonkern':
         doc_classes.add('nonkern_in_document')
     nsp = len(types)
@@ -128,7 +133,7 @@ def sessions_of(seed, population='core'):
         log, text_out = excerpt_log(doc, a, b, gov, kw)
         sess = {'log': log, 'text': text, 'classes': sorted(classes), 'seed': seed, 'tags': [population, f'range {a}-{b}'],
                 'excerpt': text_out, 'range': [a, b]}
-        if population != 'core':
+        if population not in ('core', 'late_signatures'):
             sess['case_id'] = f'{population}:{seed}:{a}-{b}'
         out.append(sess)
     if population == 'core':
@@ -155,14 +160,14 @@ def main():
     # the requirement is satisfiable: the REFERENCE excerpt of every core score of the bounded instance is recognised by the same machine
     run.add_tlc(tlc.run_tlc('MC_Excerpt', 'MC_Excerpt_q.cfg' if quick else 'MC_Excerpt_t.cfg', workers=16, timeout=5000,
                             label='MC_Excerpt(NeverStuck, EndsClosed, SameGoverning)'))
-    pops = [('core', 140 if quick else 2500), ('explored', 60 if quick else 400), ('nonkern', 40 if quick else 250)]
+    pops = [('core', 140 if quick else 2500), ('explored', 60 if quick else 400), ('nonkern', 40 if quick else 250), ('late_signatures', 40 if quick else 500)]
     sess = []
     if a.replay_case:
         sess = docs.replay_sessions(a.replay_case)
     else:
         for k, (pop, n) in enumerate(pops):
             # the explored populations are a FIXED corpus (quick = a prefix of thorough): their failing excerpts are listed one by one
-            seeds = [a.seed * 1000003 + k * 100000007 + i for i in range(n)] if pop == 'core' else [808000000 + k * 1000003 + i for i in range(n)]
+            seeds = [a.seed * 1000003 + k * 100000007 + i for i in range(n)] if pop in ('core', 'late_signatures') else [808000000 + k * 1000003 + i for i in range(n)]
             for m in docs.build_sessions(sessions_of, seeds, population=pop):
                 sess += m['multi']
             run.note('scores_' + pop, n)
